@@ -9,8 +9,8 @@ import "time"
 // Comparison semantics, transcribed from the property: = and != are
 // complementary equality tests, <, <=, >, >= follow the natural total order of
 // the kind, an unknown operator allows nothing.
-//@ spec opsemOrd(op string, lt bool, eq bool) = (op == "=" && eq) || (op == "!=" && !eq) || (op == "<" && lt) || (op == "<=" && (lt || eq)) || (op == ">" && !lt && !eq) || (op == ">=" && !lt)
-//@ spec opsemEq(op string, eq bool) = (op == "=" && eq) || (op == "!=" && !eq)
+//@ spec pure opsemOrd(op string, lt bool, eq bool) = (op == "=" && eq) || (op == "!=" && !eq) || (op == "<" && lt) || (op == "<=" && (lt || eq)) || (op == ">" && !lt && !eq) || (op == ">=" && !lt)
+//@ spec pure opsemEq(op string, eq bool) = (op == "=" && eq) || (op == "!=" && !eq)
 
 //@ func checkStr
 //@ props C10
@@ -158,7 +158,7 @@ func lemma_C10_bool_never_ordered(op string, x, y bool) bool {
 //@ spec allowedNow(f *Filter, res Resource) = allowed(heap[Filter], heap[*Filter], heap[string], $rh, f, res)
 //@ spec wtNow(f *Filter, res Resource) = wt(heap[Filter], heap[*Filter], heap[string], $rh, f, res)
 
-//@ spec isCmp(op string) = op != "and" && op != "or" && op != "in" && op != "has"
+//@ spec pure isCmp(op string) = op != "and" && op != "or" && op != "in" && op != "has"
 //@ spec cmpSem(op string, a any, b any) = cmpSemFull(op, a, b)
 
 //@ spec wtDef(f *Filter, res Resource) = f != nil && dyn(res) != 0
